@@ -294,14 +294,14 @@ def _stmt(pm, n):
     return n
 
 
-def r3(ctx, prog):
-    ctx.rule("C13-R3", "mirror branches of the model builder under "
+def r3(ctx, prog, rule="C13-R3"):
+    ctx.rule(rule, "mirror branches of the model builder under "
              "data -> -data")
     fi = prog.func(BUILDER)
     mod = prog.modules[fi.module]
     branches = [s for s in walk_no_nested(fi.node) if isinstance(s, ast.If)
                 and norm(s.test) == "isnegative" and s.orelse]
-    ctx.floor("C13-R3", len(branches), 2, "isnegative branches")
+    ctx.floor(rule, len(branches), 2, "isnegative branches")
     MIRROR = {"nanmin": "nanmax", "nanmax": "nanmin", "nanargmin":
               "nanargmax", "nanargmax": "nanargmin", "argmin": "argmax",
               "argmax": "argmin", "min": "max", "max": "min"}
@@ -316,7 +316,7 @@ def r3(ctx, prog):
             okc = "curve>0.5" in n0 and "-1*curve>0.5" in p0
             okd = "data+outerclip*rmsimg<0" in n0 and \
                 "data-outerclip*rmsimg>0" in p0
-            ctx.check("C13-R3", fi, "summit candidates (curvature / clip "
+            ctx.check(rule, fi, "summit candidates (curvature / clip "
                       "mirror)", okc and okd,
                       "negative: curve > 0.5 and data + clip*rms < 0 must "
                       "mirror positive: -curve > 0.5 and data - clip*rms > "
@@ -327,7 +327,7 @@ def r3(ctx, prog):
             import re
             return re.sub(r"\b(nanargmin|nanargmax|nanmin|nanmax|argmin|"
                           r"argmax)\b", lambda m: MIRROR[m.group(1)], t)
-        ctx.check("C13-R3", fi, "extremum mirror: %s" % neg, len(neg) ==
+        ctx.check(rule, fi, "extremum mirror: %s" % neg, len(neg) ==
                   len(pos) and all(mirror(a) == c for a, c in zip(neg, pos)),
                   "the negative branch must use nanmin/argmin exactly where "
                   "the positive branch uses nanmax/argmax; found %s vs %s" %
@@ -374,7 +374,7 @@ def r3(ctx, prog):
         e2 = sp.simplify(norm_minmax(nmax) - norm_minmax(-pmin.subs(amp,
                                                                     -amp)))
         ok = e1 == 0 and e2 == 0
-    ctx.check("C13-R3", fi, "amplitude bounds mirror", bool(ok),
+    ctx.check(rule, fi, "amplitude bounds mirror", bool(ok),
               "(amp_min, amp_max) of the negative branch must equal "
               "(-amp_max(-amp), -amp_min(-amp)) of the positive branch; "
               "positive (%s, %s), negative (%s, %s)" % (pmin, pmax, nmin,
